@@ -3,7 +3,7 @@ CONSTANTS
   Keys = {1, 2}
   Handles = {1, 2}
   Vals = {0, 1}
-  MaxOps = 5
+  MaxOps = 4
 INVARIANTS TypeOK
 PROPERTIES CommitOnly SnapshotStable ErrNoEffect
 CHECK_DEADLOCK FALSE
